@@ -119,6 +119,9 @@ func (r *Run) strArg(v Value) string {
 func (r *Run) verifAPI(fn *ssa.Function, args []Value) (Value, bool) {
 	ts := r.ts
 	name := fn.Name()
+	if strings.HasPrefix(name, "verifJSON") {
+		return r.jsonAPI(name, args)
+	}
 	switch name {
 	case "verifNondetBool":
 		v := r.newInput(r.strArg(args[0]), 8)
